@@ -82,7 +82,8 @@ fn drive(cx: &mut Ctx, mode: Mode, inline_opt: bool, label: &str, with_model: bo
         // class of this step (evaluated on the reference state BEFORE the step)
         let step_class: Option<&'static str> = name_class(&op)
             .or_else(|| if reference.confused(&op) { Some(K_KIND) } else { None })
-            .or_else(|| if reference.shadows(&op) { Some(K_DUP) } else { None });
+            .or_else(|| if reference.shadows(&op) { Some(K_DUP) } else { None })
+            .or_else(|| if reference.register_empty(&op) { Some(K_EMPTYLOC) } else { None });
         let paging = reference.paging_ignored(&op);
         let want = reference.step(&op, &a);
         let ok = agrees(&a, &want);
@@ -233,7 +234,7 @@ fn rand_op(rng: &mut Rng, mode: Mode, pool: &[String], g: &mut GenState) -> Op {
                 Op::ListTables(p, t, l)
             }
             91..=94 => {
-                let loc = if !g.locs.is_empty() && rng.chance(4, 5) { rng.pick(&g.locs).clone() } else { rng.pick(&["x.lance", "a.lance", "/abs", "a/../b", "s3://x"]).to_string() };
+                let loc = if !g.locs.is_empty() && rng.chance(4, 5) { rng.pick(&g.locs).clone() } else { rng.pick(&["x.lance", "a.lance", "/abs", "a/../b", "s3://x", "", "."]).to_string() };
                 Op::RegisterTable(id, loc)
             }
             _ => Op::DeregisterTable(id),
@@ -274,7 +275,7 @@ fn random_sequence(cx: &mut Ctx, rng: &mut Rng, mode: Mode, len: usize, wild: bo
         n += 1;
         for _ in 0..200 {
             let op = rand_op(&mut rng2, mode, &pool, &mut g);
-            if clean && (reference.confused(&op) || reference.shadows(&op) || name_class(&op).is_some()) {
+            if clean && (reference.confused(&op) || reference.shadows(&op) || reference.register_empty(&op) || name_class(&op).is_some()) {
                 continue;
             }
             return Some(op);
@@ -537,6 +538,34 @@ fn arm_f10(cx: &mut Ctx) {
                 Op::DropNs(ids(&["t"])),
                 Op::TableExists(ids(&["t"])),
                 Op::ListTables(vec![], None, None),
+            ],
+            true,
+        ),
+        (
+            "register_table with an empty location, then drop_table: the catalog directory is removed",
+            Mode::Manifest,
+            vec![
+                Op::CreateEmptyTable(ids(&["t"])),
+                Op::RegisterTable(ids(&["r"]), String::new()),
+                Op::DescribeTable(ids(&["r"])),
+                Op::DropTable(ids(&["r"])),
+                Op::TableExists(ids(&["t"])),
+                Op::ListTables(vec![], None, None),
+            ],
+            true,
+        ),
+        (
+            "dual listing shows a name twice",
+            Mode::Dual,
+            vec![
+                Op::CreateEmptyTable(ids(&["a"])),
+                Op::CreateEmptyTable(ids(&["b"])),
+                Op::DeregisterTable(ids(&["a"])),
+                Op::TableExists(ids(&["a"])),
+                Op::RegisterTable(ids(&["a"]), "b.lance".into()),
+                Op::ListTables(vec![], None, None),
+                Op::ListTables(vec![], None, Some(1)),
+                Op::ListTables(vec![], Some("a".into()), Some(1)),
             ],
             true,
         ),
